@@ -11,6 +11,10 @@ an artefact of taking the OS answers as a list, not a behaviour of the allocator
 (+ what the call site knows) only the `os-desync` outcomes are possible; in particular no `debug_assert!` of the
 port can fail and no subtraction underflows, in debug and release builds alike.
 
+`SInv` does not bound the size of a user chunk below by 32 (that is in `liveOk`): the chunk-freeing functions
+take `32 ≤ size` as a call-site fact (a 16-byte in-use chunk would trip `insert_small_chunk`'s assert; unreachable,
+kernel-checked example in `DlProgFree.lean`).
+
 One `f_Prog : Prop` per model function; proofs of `g_Prog` may take `f_Prog` AND `f_Spec` of callees as hypotheses.
 -/
 namespace TinyVerif.Dl
@@ -62,7 +66,7 @@ def malloc_nosys_Prog : Prop :=
   ∀ {s : St} (_ : SInv s) {size : Nat}, Total (malloc_nosys s.h size)
 
 def dispose_chunk_Prog : Prop :=
-  ∀ {s : St} (_ : SInv s) {p psize : Nat}, User s p psize → Total (dispose_chunk s.h p psize)
+  ∀ {s : St} (_ : SInv s) {p psize : Nat}, User s p psize → 32 ≤ psize → Total (dispose_chunk s.h p psize)
 
 /-- the two `set_inuse` calls of a split of a user chunk of size `nb + rsize` -/
 def split_inuse_Prog : Prop :=
@@ -70,10 +74,10 @@ def split_inuse_Prog : Prop :=
     32 ≤ rsize → ∃ h1 h2, set_inuse s.h p nb = .ok h1 ∧ set_inuse h1 (p + nb) rsize = .ok h2
 
 def free_heap_Prog : Prop :=
-  ∀ {s : St} (_ : SInv s) {mem : Nat}, 16 ≤ mem → (∃ z, User s (mem - 16) z) → Total (free_heap s.h mem)
+  ∀ {s : St} (_ : SInv s) {mem : Nat}, 16 ≤ mem → (∃ z, User s (mem - 16) z ∧ 32 ≤ z) → Total (free_heap s.h mem)
 
 def try_realloc_chunk_Prog : Prop :=
-  ∀ {s : St} (_ : SInv s) {p nb z : Nat}, User s p z → NbOk nb → Total (try_realloc_chunk s.h p nb)
+  ∀ {s : St} (_ : SInv s) {p nb z : Nat}, User s p z → 32 ≤ z → NbOk nb → Total (try_realloc_chunk s.h p nb)
 
 def memalign_fix_Prog : Prop :=
   ∀ {s : St} (_ : SInv s) {mem k nb z : Nat}, 16 ≤ mem → User s (mem - 16) z → NbOk nb → 5 ≤ k → k ≤ 32 →
@@ -84,11 +88,16 @@ def memalign_fix_Prog : Prop :=
 def sys_alloc_Prog : Prop :=
   ∀ {s : St} (_ : SInv s) {nb : Nat}, NbOk nb → OsOk s (sysLen nb) → Prog (sys_alloc s nb)
 
+/-- the footprint counter equals the sum of the segment sizes (`Props/C04.lean` `footprint_exact`; inductive by the
+`*_book` lemmas of `Proofs/DlStep.lean`): without it `footprint - released` can underflow (kernel-checked example in
+`DlProgSys.lean`) -/
+def FpOk (s : St) : Prop := s.footprint = (s.segs.map (·.size)).sum
+
 def release_unused_segments_Prog : Prop :=
-  ∀ {s : St} (_ : SInv s), Prog (release_unused_segments s)
+  ∀ {s : St} (_ : SInv s) (_ : FpOk s), Prog (release_unused_segments s)
 
 def sys_trim_Prog : Prop :=
-  ∀ {s : St} (_ : SInv s) {pad : Nat}, Prog (sys_trim s pad)
+  ∀ {s : St} (_ : SInv s) (_ : FpOk s) {pad : Nat}, Prog (sys_trim s pad)
 
 /-! ## entry points -/
 
@@ -100,14 +109,16 @@ what `free` needs from the state beyond `SInv` -/
 def RcOk (s : St) : Prop := s.h.top ≠ 0 → 0 < s.release_checks
 
 def free_Prog : Prop :=
-  ∀ {s : St} (_ : SInv s) (_ : RcOk s) {mem : Nat}, 16 ≤ mem → (∃ z, User s (mem - 16) z) → Prog (free s mem)
+  ∀ {s : St} (_ : SInv s) (_ : RcOk s) (_ : FpOk s) {mem : Nat}, 16 ≤ mem → (∃ z, User s (mem - 16) z ∧ 32 ≤ z) →
+    Prog (free s mem)
 
 def malloc_Prog : Prop :=
   ∀ {s : St} (_ : SInv s) {size k : Nat}, k ≤ 32 → nbOf (reqOf size (2 ^ k)) < 2 ^ 63 →
     OsOk s (mapSize (reqOf size (2 ^ k))) → Prog (malloc s size (2 ^ k))
 
 def realloc_Prog : Prop :=
-  ∀ {s : St} (_ : SInv s) (_ : RcOk s) {ptr osz k ns z : Nat}, 16 ≤ ptr → User s (ptr - 16) z → k ≤ 32 →
+  ∀ {s : St} (_ : SInv s) (_ : RcOk s) (_ : FpOk s) {ptr osz k ns z : Nat}, 16 ≤ ptr → User s (ptr - 16) z → 32 ≤ z →
+    k ≤ 32 →
     ptr % 2 ^ k = 0 → nbOf (reqOf ns (2 ^ k)) < 2 ^ 63 → OsOk s (mapSize (reqOf ns (2 ^ k))) →
     Prog (realloc s ptr osz (2 ^ k) ns)
 
